@@ -22,6 +22,19 @@ func init() {
 	register(&Scenario{Name: "bf-single", Setup: bfSingleSetup})
 }
 
+// bfStallBudget keeps the injected stalls (F12) of a block-fetch run below the
+// protocol's own shortest timeout: the client gives up 5 s after RequestRange
+// if no StartBatch/NoBlocks has been handled. During a bulk transfer over a
+// small socket buffer the muxer reader is often the only runnable task, so
+// every stall lands on it; unbounded, some 30 stalls of 200 ms add up to that
+// timeout and the library, rightly, ends the protocol (a slow node, not a
+// wrong answer). At most 1.5 s of stall is injected in any 5 simulated seconds;
+// stalls beyond that still deschedule their task, for 1 ms.
+func bfStallBudget(s *rt.Sim) {
+	s.Cfg.StallWindow = 5 * time.Second
+	s.Cfg.StallBudget = 1500 * time.Millisecond
+}
+
 func wrappedBlockMsg(b fixBlock) []byte {
 	wb, err := cbor.Encode([]any{b.Type, cbor.RawMessage(b.Data)})
 	if err != nil {
@@ -39,6 +52,7 @@ func bfRangeSetup(s *rt.Sim, tier string) func() {
 	schedCfg(s, true)
 	s.Cfg.MaxSteps = 80000
 	s.Cfg.MaxStall = 200 * time.Millisecond
+	bfStallBudget(s)
 	s.Cfg.Horizon = 6 * time.Hour
 	return func() {
 		ncfg := drawNetCfg(true)
@@ -187,6 +201,7 @@ func bfSingleSetup(s *rt.Sim, tier string) func() {
 	schedCfg(s, true)
 	s.Cfg.MaxSteps = 60000
 	s.Cfg.MaxStall = 200 * time.Millisecond
+	bfStallBudget(s)
 	s.Cfg.Horizon = 6 * time.Hour
 	return func() {
 		pair := NewPair(drawNetCfg(false))
@@ -301,6 +316,7 @@ func bfMixedSetup(s *rt.Sim, tier string) func() {
 	schedCfg(s, true)
 	s.Cfg.MaxSteps = 120000
 	s.Cfg.MaxStall = 200 * time.Millisecond
+	bfStallBudget(s)
 	s.Cfg.Horizon = 6 * time.Hour
 	return func() {
 		ncfg := drawNetCfg(true)
